@@ -22,6 +22,18 @@ RULE += ("; wave 5 (props/bufstore.py, coq/theories/BufStore.v): buffer.rs at ST
          "implementation, and a stream-level python oracle that keeps no buffer contents (window = slice of the delivered data at position)")
 TRUSTED = TRUSTED + ["props/bufstore.Sim: offsets-only reference of BufferWindow (oracle bufstore-window / bufstore-position / bufstore-full)"]
 # <<< w_buf
+# >>> s_c07 (wave 6)
+RULE += ("; wave 6 (props/C07_sizes.py, audit/C07.md 'Size dimensions'): every size dimension walked one at a time over 0 1 2 3 7 8 9 15 16 17 31 32 33 "
+         "63 64 65 127 128 129 255 256 257 1023 1024 1025 4095 4096 4097 65533 65534 65535 65536 on an otherwise small input: the length of one atom "
+         "of every kind (unquoted, @word, @[..], quoted, escape pairs, backslash runs, comments, truncated tails) x capacity need-1 / need / need+1 / 2^k / "
+         "recycled hostile buffer x chunk sizes; blank runs (tab/newline SWAR path, spaces, CRLF, mixed) in front of every token kind; the window length "
+         "0..26 at the moment of the next() call x token kind x length x leading tabs (measured by tr.trace); alignment with hostile bytes behind the "
+         "window (tr.subslice / recycled buffer); capacities 2^k-1, 2^k, 2^k+1 up to 2^20; TokenReader::new with atoms needing 32767 / 32768 / 32769 "
+         "bytes; 1..4100 refills inside one token, chunk sizes up to 65536; position() beyond 2^16 and 2^20, EF BB BF at a window start far from 0; "
+         "0..65536 tokens in one stream; read_bytes(k) on the ladder x capacity k-1 / k / k+1; expected tokens known by construction, the extracted "
+         "model runs the cases of <= 300 bytes (and every 4th of <= 1100 bytes), longer ones are judged by the oracles only")
+TRUSTED = TRUSTED + ["props/C07_sizes.Doc: the expected tokens of a ladder input are recorded while its bytes are written (oracle by construction)"]
+# <<< s_c07
 
 
 def sched_str(s):
@@ -174,6 +186,11 @@ def run(ctx):
     from props import bufstore
     bufstore.run(ctx, "C07", 4000, 60000)
     # <<< w_buf
+    # >>> s_c07 (wave 6): size / boundary ladders (one dimension at a time up to 65536, position() beyond 2^20, the default
+    # 32 KiB buffer at need 32767..32769) -- see props/C07_sizes.py and audit/C07.md, "Size dimensions"
+    from props import C07_sizes
+    C07_sizes.run(ctx, sys.modules[__name__])
+    # <<< s_c07
     shrink(ctx)
 
 
